@@ -259,6 +259,15 @@ def r4_bits(ctx):
   bh = prog.func(TSINK, 'SocketTransportSink._BuildHeader')
   s = [x for x in wire.struct_sites(prog, bh) if x.op == 'pack'][0]
   star = [a for a in s.args if isinstance(a, ast.Starred)]
+  if not star and len(s.args) >= 3 and all(isinstance(a, ast.Subscript) and isinstance(a.value, ast.Name) for a in s.args[-3:]) \
+     and len(set(a.value.id for a in s.args[-3:])) == 1 and [U(a.slice) for a in s.args[-3:]] == ['0', '1', '2']:
+    # the three bytes passed one by one from a local: pack(.., b[0], b[1], b[2])
+    star = [ast.Starred(value=ast.Name(id=s.args[-1].value.id, ctx=ast.Load()), ctx=ast.Load())]
+  if len(star) == 1 and isinstance(star[0].value, ast.Name):
+    # the three bytes held in a local first: bytes_ = self._EncodeTag(tag); pack(.., *bytes_)
+    defs_ = [st.value for st in walk_no_nested(bh.node) if isinstance(st, ast.Assign) and len(st.targets) == 1 and U(st.targets[0]) == star[0].value.id]
+    if len(defs_) == 1:
+      star = [ast.Starred(value=defs_[0], ctx=ast.Load())]
   ok = (len(star) == 1 and isinstance(star[0].value, ast.Call) and call_attr(star[0].value) in ('_EncodeTag', 'Encode')
         and star[0].value.args and isinstance(star[0].value.args[0], ast.Name) and star[0].value.args[0].id == bh.params[1]) or (delegated and len(star) == 1)
   ctx.ob('C13.R4', bh, 'tag bytes come from the tag parameter', ok,
